@@ -7,6 +7,15 @@ import time
 from . import build
 
 KANI_DIR = os.path.join(build.VERIF, 'kani')
+_ALT_DIR = {}
+
+
+def kani_dir():
+    if not build.ALT:
+        return KANI_DIR
+    if 'd' not in _ALT_DIR:
+        _ALT_DIR['d'] = build.crate_dir('kani')
+    return _ALT_DIR['d']
 
 
 def run_harness(name, timeout_s=600):
@@ -16,13 +25,16 @@ def run_harness(name, timeout_s=600):
     full = mod + '::' + name
     with build.Lock('kani'):
         lock_src = os.path.join(build.REPO, 'Cargo.lock')
-        lock_dst = os.path.join(KANI_DIR, 'Cargo.lock')
+        kd = kani_dir()
+        lock_dst = os.path.join(kd, 'Cargo.lock')
         try:
             import shutil
             shutil.copy(lock_src, lock_dst)
         except Exception:  # noqa
             pass
-        p = subprocess.run([os.path.join(KANI_DIR, 'run_one.sh'), full, str(timeout_s)], capture_output=True, text=True)
+        env = dict(os.environ)
+        env['VERIF_BUILD'] = build.BUILD
+        p = subprocess.run([os.path.join(kd, 'run_one.sh'), full, str(timeout_s)], capture_output=True, text=True, env=env)
     out = p.stdout.strip().split('\n')[-1] if p.stdout.strip() else ''
     m = re.match(r'(\S+) (SUCCESSFUL|FAILED|TIMEOUT|ERROR) (\d+)', out)
     status = m.group(2) if m else 'ERROR'
